@@ -590,8 +590,17 @@ class PythonToIrCompiler:
             if ty is None:
                 self.error(node, "Undefined variable")
             else:
-                mem = self.emit(ir.Alloc(f"alloc_{name}", 8, 8))
-                addr = self.emit(ir.AddressOf(mem, f"addr_{name}"))
+                # Place the variable in the entry block, it must be defined
+                # on every path which leads to a later use:
+                mem = ir.Alloc(f"alloc_{name}", 8, 8)
+                addr = ir.AddressOf(mem, f"addr_{name}")
+                entry = self.builder.function.entry
+                if self.builder.block is entry:
+                    self.emit(mem)
+                    self.emit(addr)
+                else:
+                    entry.insert_instruction(addr)
+                    entry.insert_instruction(mem)
                 var = Var(addr, True, ty)
                 self.local_map[name] = var
         return var
